@@ -216,7 +216,8 @@ Definition c07_bounds_ok : bool :=
   ob_panic ob || (max_shard o <? min_shard o) ||
   forallb (fun r => (min_shard o <=? r) && (r <=? max_shard o)) (ob_scales ob).
 (* "more space is needed", read off the observables: a healthy unscraped target that fits into an empty shard
-   was not placed anywhere *)
+   was not placed anywhere - and has a size: the needed space is the sum of the sizes of what could not be placed, so a
+   target whose probe found no samples needs none (coordinator.go `needSpace.IsZero()`, C07_no_shrink's premise) *)
 Definition fits_alone (c : cstat) : bool :=
   ((max_head o =? 0) || (c_series c <? max_head o)) && (c_total c <? max_proc o).
 Definition placed_somewhere (h : N) : bool :=
@@ -225,7 +226,7 @@ Definition pending_eligible : bool :=
   existsb (fun hj => let h := fst hj in
     unscraped h && negb (placed_somewhere h) &&
     match afind h (i_explore i) with
-    | Some c => health_eqb (c_health c) Good && fits_alone c
+    | Some c => health_eqb (c_health c) Good && fits_alone c && ((0 <? c_series c) || (0 <? c_total c))
     | None => false
     end) (i_active i).
 (* what a sidecar can report: idle-since is set only while nothing is assigned (C10) *)
